@@ -64,6 +64,12 @@ def run(F, R):
     for _k, _v in roles.items():
         if _v == 'pop_used':
             e6_relink(F, R, M, _k, rule='K7')
+    # K11: the request queue runs in the modes that were negotiated: its indirect / event-index construction arguments are
+    # contains(negotiated, INDIRECT_DESC) / contains(negotiated, EVENT_IDX) in that order (C08.H3, bits 28 / 29) - swapped,
+    # a device that offered only one of them gets requests in a form it never negotiated
+    from . import C08 as _c8
+    _qctor = [b['id'] for b in queue_entry_points(F, M) if b.get('sig', '').find('-> core::result::Result<%s<' % M.queue_adt) >= 0]
+    _c8.h1_constructors(F, RuleProxy(R, {'H3': 'K11'}, only=lambda inst: inst.startswith(DRV)), M, _qctor)
 
 
 def find_adt(F, pred):
